@@ -32,10 +32,11 @@ const (
 	clsSibling
 	clsChurn
 	clsLarge
+	clsSize
 	nClasses
 )
 
-var classNames = []string{"corpus", "edge", "corrupt", "sibling", "churn", "large"}
+var classNames = []string{"corpus", "edge", "corrupt", "sibling", "churn", "large", "size"}
 
 type poolT struct {
 	inputs []input
@@ -254,6 +255,15 @@ func buildPool(root string, seed uint64, corrupt, churn, large int) error {
 			p.inputs = append(p.inputs, input{text: txt, origin: "sibling:large", entry: src.entry, paths: src.paths, family: src.family, class: clsLarge})
 		}
 	}
+	// size sweep (sizes.go)
+	for _, sw := range sizeSweep() {
+		cl := uint8(clsSize)
+		if len(sw.text) > 12000 {
+			cl = clsLarge // expensive: rarely chosen, linear-cost variants only
+		}
+		p.inputs = append(p.inputs, input{text: sw.text, origin: "size:" + sw.kind, entry: sw.entry, paths: [2]uint8{uint8(rng.intn(3)), uint8(rng.intn(3))},
+			family: int32(len(p.inputs)), class: cl})
+	}
 	// views: prefixes that SHARE MEMORY with the text they are cut from (Go substrings: same
 	// start address, other length), same paths - what a caller does who parses pieces of one
 	// buffer (SplitRawStatements hands out such substrings), and what a cache keyed by the
@@ -322,7 +332,7 @@ func buildPool(root string, seed uint64, corrupt, churn, large int) error {
 			add(b) // variant 0
 			// a rotating selection of the other variants
 			nv := 3
-			if in.class == clsEdge || in.class == clsChurn || in.class == clsLarge {
+			if in.class == clsEdge || in.class == clsChurn || in.class == clsLarge || in.class == clsSize {
 				nv = 1
 			}
 			for t := 0; t < nv; t++ {
